@@ -73,7 +73,7 @@ def entries_ordered_upstream(cx: Ctx, f, it, attr):
             if not any(t.endswith("MHLMediaHash.append_hash_entry") for t in tg):
                 continue
             recv = call.func.value if isinstance(call.func, ast.Attribute) else None
-            if recv is None or not _is_directory_record(g, recv):
+            if recv is None or not _is_directory_record(g, recv, p):
                 continue
             sites += 1
             # the appended entry: MHLHashEntry(<fmt>, ...) with fmt the key of an enclosing loop over an ordered dict
@@ -102,12 +102,22 @@ def entries_ordered_upstream(cx: Ctx, f, it, attr):
     return True, f"{sites} append site(s) for directory records iterate an ascending per-format dict (4-hop orderedness judgment)"
 
 
-def _is_directory_record(g, recv) -> bool:
+def _is_directory_record(g, recv, p=None, depth=0) -> bool:
+    """the receiver is a record marked `is_directory = True` in this function; for a helper's parameter: at every call site"""
     if not isinstance(recv, ast.Name):
         return False
     for n in walk_no_nested(g.node):
         if isinstance(n, ast.Assign) and len(n.targets) == 1 and isinstance(n.targets[0], ast.Attribute) and n.targets[0].attr == "is_directory" and norm(n.targets[0].value) == recv.id and isinstance(n.value, ast.Constant) and n.value.value is True:
             return True
+    if p is not None and depth < 3 and recv.id in g.params + g.kwonly:
+        sites = [(p.funcs[c], call) for c, call in p.callers.get(g.qual, [])]
+        if not sites:
+            return False
+        for cf, call in sites:
+            arg = p.bind_args(g, call).get(recv.id)
+            if arg is None or not _is_directory_record(cf, arg, p, depth + 1):
+                return False
+        return True
     return False
 
 
@@ -209,7 +219,7 @@ def run(report, p):
             if any(t.endswith("MHLMediaHash.append_hash_entry") for t in tg) and isinstance(call.func, ast.Attribute):
                 recv = call.func.value
                 rm.instance(f, call, norm(call))
-                if _is_directory_record(f, recv):
+                if _is_directory_record(f, recv, p):
                     rm.check(True, f, call, "")
                     continue
                 # must be dominated by a True-branch of `<recv>.find_hash_entry_for_format(<fmt>) is None`
@@ -419,7 +429,7 @@ def refine_templates(p, report, pr, mdoc, lemma_ignore):
             for c in el.children:
                 if isinstance(c, Opt) and _is_ignore_spec(p, c.guard):
                     for it in c.items:
-                        if isinstance(it, Rep) and norm(it.loop.iter).endswith(".get_pattern_list()"):
+                        if isinstance(it, Rep) and norm(_strip_length_preserving(it.loop.iter)).endswith(".get_pattern_list()"):
                             it.nonempty = True
                         new.append(it)
                 else:
@@ -431,6 +441,13 @@ def refine_templates(p, report, pr, mdoc, lemma_ignore):
             for c in el.children:
                 if isinstance(c, Elem) and c.tag == "path":
                     c.attrs = [a for a in c.attrs if a.name != "size"]
+
+
+def _strip_length_preserving(e):
+    """sorted(X) / list(X) / tuple(X) / reversed(X) have as many elements as X (emptiness is what matters here)"""
+    while isinstance(e, ast.Call) and norm(e.func) in ("sorted", "list", "tuple", "reversed") and len(e.args) == 1:
+        e = e.args[0]
+    return e
 
 
 def _is_ignore_spec(p, guard):
